@@ -405,9 +405,12 @@ func init() {
 		rep := NewReport("C17")
 		pool := NewPool(0)
 		k := 2
+		parts := 8
+		if rep.Tier == "thorough" {
+			k, parts = 3, 64
+		}
 		var jobs []Job
 		jobs = append(jobs, Job{Kind: "c17static"})
-		parts := 8
 		for mi := range c17Msgs() {
 			for p := 0; p < parts; p++ {
 				jobs = append(jobs, Job{Kind: "c17", Args: mustJSON(c17Args{Msg: mi, Part: p, Parts: parts, K: k})})
